@@ -41,6 +41,9 @@ def ops_for(hub, U, letters, rng, regime, tier):
     """perform one of each operation configuration; the permutation oracles replay them in other orders"""
     fd = hub.fd
     pairs = PAIRS3 + (PAIRS4 if len(letters) >= 4 else [])
+    if tier == "thorough" and len(letters) == 3:
+        subs = gen.ordered_subsets("abc")
+        pairs = [("".join(a), "".join(b)) for a in subs for b in subs]
     for la, lb in pairs:
         if not set(la + lb) <= set(letters):
             continue
